@@ -78,6 +78,8 @@ type RunCtx struct {
 	Assume   []string
 	Findings []Finding
 	Notes    []string
+	// GroupByPre makes the precondition part of the violation grouping key (dynamic properties).
+	GroupByPre bool
 }
 
 func (rc *RunCtx) Add(f Finding) {
@@ -132,13 +134,21 @@ func (rc *RunCtx) Finish() {
 	groups := map[string][]Finding{}
 	var order []string
 	for _, f := range viol {
-		k := f.Kind + "|" + f.Site + "|" + f.Pre
+		k := f.Kind + "|" + f.Site
+		if rc.GroupByPre {
+			k += "|" + f.Pre
+		}
 		if _, ok := groups[k]; !ok {
 			order = append(order, k)
 		}
 		groups[k] = append(groups[k], f)
 	}
 	vdir := "/verif/work/violations"
+	if old, _ := filepath.Glob(filepath.Join(vdir, rc.ID+"-*.json")); len(old) > 0 {
+		for _, o := range old {
+			_ = os.Remove(o)
+		}
+	}
 	for _, k := range order {
 		g := groups[k]
 		f := g[0]
@@ -153,6 +163,19 @@ func (rc *RunCtx) Finish() {
 			}
 		}
 		rep["other_witnesses"] = others
+		pres := map[string]bool{}
+		for _, o := range g {
+			pres[o.Pre] = true
+		}
+		var pl []string
+		for p := range pres {
+			pl = append(pl, p)
+		}
+		sort.Strings(pl)
+		if len(pl) > 60 {
+			pl = pl[:60]
+		}
+		rep["preconditions_in_group"] = pl
 		b, _ := json.MarshalIndent(rep, "", " ")
 		_ = os.WriteFile(path, b, 0o644)
 		fmt.Printf("VIOLATION property=%s replay=%s\n", rc.ID, path)
